@@ -90,6 +90,24 @@ TABLE = {
                      "other conditions, plus an(entity(concatenate(e))) whose single row must equal the list of all elements in "
                      "domain and inner order; judged by TLC against ConcatFrom.",
                 technique="TLA+ denotational spec (ConcatFrom) + TLC-generated programs replayed + TLC trace validation", ref="7 C17"),
+    "C14": dict(text="TLC explores every history (depth-bounded, plus random walks) of concrete construction in three styles over a "
+                     "three-level hierarchy (decorated, decorated by inheritance, undecorated with hand-written __init__), symbolic "
+                     "construction, rule inference, clearing and no-domain queries; histories are replayed and TLC computes the "
+                     "expected registry contents for every query, and checks symbolic construction registers nothing and runs "
+                     "no __init__.",
+                technique="TLA+ state machine (RegistryOps/Registry) + exported histories replayed + TLC trace validation", ref="7 C14",
+                note="Trusted: TLC, RegistryOps, the registry replay runner (identifies objects by construction order)."),
+    "C11": dict(text="Rules infer(entity(T(f=e...), body)) with generated two-variable bodies and heads (variables, attribute "
+                     "expressions incl. falsy values, constants, None; classes P and R) are evaluated in rule mode; every produced "
+                     "instance is logged (class, fields by identity, newness) and TLC compares the multiset with one instance per "
+                     "satisfying assignment of the denotation.",
+                technique="TLA+ denotational spec (InferSeq) + TLC-generated rules replayed + TLC trace validation", ref="7 C11"),
+    "C13": dict(text="TLC enumerates predicate-form terms (every subset of 4 fields, keyword/positional, constants incl. falsy, "
+                     "variable and nested-term values) and typed declarations over mixed-class domains (let, T(From(d)), term, "
+                     "shared From instance); each is built in term form and in explicit form, both judged against the "
+                     "denotation (type filter + one equality per field) and against each other.",
+                technique="TLA+ denotational spec (FieldsHold, IsInst) + TLC-enumerated terms replayed in both forms + TLC trace validation",
+                ref="7 C13"),
 }
 
 REASON_PENDING = "check not built yet (work in progress; see DESIGN.md section 10)"
